@@ -129,6 +129,48 @@ def mutate (d : Dst P) : List String → Option (Dst P)
     if k < d.nodes.length then some { d with nodes := setAt d.nodes k (fun n => { n with props := normProps p }) } else none
   | _ => none
 
+/-! ### scale boundary ops (see harness/c18.go: `scale`, `scaledump`, `scaleverify`, `scalemutate`) -/
+
+def scaleKinds (i : Nat) : List String :=
+  (List.range 17).filterMap (fun j => if (i >>> j) % 2 == 1 then some s!"K{j}" else none)
+
+def scaleGraph (n : Nat) : Graph P :=
+  { name := "default"
+    nodes := (List.range n).map (fun i => ⟨i, scaleKinds i, "{}"⟩)
+    edges := [⟨1, n - 2, 0, "R", "{}"⟩, ⟨2, n - 1, 1, "R", "{}"⟩, ⟨3, n - 3, n - 1, "R", "{}"⟩] }
+
+/-- `metricKeyPart` / `metricKindSetKey` / `metricEndpointKindKey` of metrics.go -/
+def keyPart (v : String) : String := s!"{v.utf8ByteSize}:{v}"
+def kindSetKeyStr (key : List String) : String := if key.isEmpty then "0:" else "+".intercalate (key.map keyPart)
+def endpointKeyStr (e : List String × String × List String) : String :=
+  "|".intercalate [keyPart (kindSetKeyStr e.1), keyPart (keyPart e.2.1), keyPart (kindSetKeyStr e.2.2)]
+
+def sortStrings (xs : List String) : List String := xs.mergeSort (fun a b => decide (a ≤ b))
+
+/-- number of distinct values of a sorted list -/
+def distinctSorted : List String → Nat
+  | [] => 0
+  | [_] => 1
+  | a :: b :: t => (if a == b then 0 else 1) + distinctSorted (b :: t)
+
+def countRuns : List String → List (String × Nat)
+  | [] => []
+  | a :: t =>
+    match countRuns t with
+    | (b, n) :: rest => if a == b then (b, n + 1) :: rest else (a, 1) :: (b, n) :: rest
+    | [] => [(a, 1)]
+
+/-- multiset equality by sorting (the model's `histEq` is quadratic; this is the same relation on rendered keys) -/
+def sameMultiset (a b : List String) : Bool := sortStrings a == sortStrings b
+
+def fastAgree (a b : Metrics) : Bool :=
+  a.nodeCount == b.nodeCount && a.edgeCount == b.edgeCount &&
+  sameMultiset (a.nodeKinds.map kindSetKeyStr) (b.nodeKinds.map kindSetKeyStr) &&
+  sameMultiset a.edgeKinds b.edgeKinds &&
+  sameMultiset (a.inDeg.map toString) (b.inDeg.map toString) && sameMultiset (a.outDeg.map toString) (b.outDeg.map toString) &&
+  sameMultiset (a.totDeg.map toString) (b.totDeg.map toString) &&
+  sameMultiset (a.endpoints.map endpointKeyStr) (b.endpoints.map endpointKeyStr)
+
 def dumpAnswer (st : St) (codec : String) (batch shard : Nat) : St × String :=
   match dumpAll st batch shard with
   | .error e => ({ st with dumps := none, loaded := none }, "err " ++ dumpErrStr e)
@@ -206,6 +248,42 @@ def step (st : St) (ts : List String) : St × String :=
         | some cls => ({ st with dumps := none, loaded := none }, "stuck " ++ cls)
       else (st, "bad-op")
     | _, _, _ => (st, "bad-op")
+  | ["scale", n] =>
+    match n.toNat? with
+    | some n => if n < 4 || n > 131072 then (st, "bad-op") else ({ graphs := [scaleGraph n] }, "ok")
+    | none => (st, "bad-op")
+  | ["scaledump", codec] =>
+    if st.graphs.isEmpty || !(["none", "gzip", "zstd"].contains codec) then (st, "bad-op") else
+    match dumpAll st 10000 1000 with
+    | .error e => ({ st with dumps := none, loaded := none }, "err " ++ dumpErrStr e)
+    | .ok ds =>
+      match ds with
+      | [d] =>
+        let m := d.manifest.metrics
+        let combos := distinctSorted (sortStrings (m.nodeKinds.map kindSetKeyStr))
+        let eps := (countRuns (sortStrings (m.endpoints.map endpointKeyStr))).map (fun (k, c) => s!"{k}*{c}")
+        ({ st with codec := codec, dumps := some ds, loaded := none }, s!"ok n={m.nodeCount} e={m.edgeCount} combos={combos} ep={",".intercalate eps}")
+      | _ => (st, "bad-op")
+  | ["scaleverify"] =>
+    -- Load then Verify of the faithful copy: accepted (Props.verify_accepts_loaded); the 65537-node load is not replayed
+    match st.dumps, st.graphs with
+    | some [_], [g] => (st, s!"ok n={g.nodes.length} e={g.edges.length}")
+    | _, _ => (st, "bad-op")
+  | ["scalemutate"] =>
+    -- the second relationship (creation order = id order) now starts at the first node: exact metrics comparison
+    match st.dumps, st.graphs with
+    | some [d], [g] =>
+      let es := sortBy (fun e : Edge P => e.id) g.edges
+      let ns := sortBy (fun n : Node P => n.id) g.nodes
+      match ns.head?, es with
+      | some n0, [e1, e2, e3] =>
+        let obsN := ns.map (fun n => (n.id, n.kinds))
+        let obsE := [e1, { e2 with src := n0.id }, e3].map (fun e => (e.src, e.dst, e.kind))
+        match metricsOf obsN obsE with
+        | some actual => (st, if fastAgree d.manifest.metrics actual then s!"ok n={g.nodes.length} e={g.edges.length}" else "mismatch")
+        | none => (st, "err dangling-endpoint")
+      | _, _ => (st, "bad-op")
+    | _, _ => (st, "bad-op")
   | ["load", batch] =>
     match batch.toNat?, st.dumps with
     | some batch, some ds =>
